@@ -12,22 +12,140 @@ open OF (bamt vadd xbalance nullPosts isNullPost inferred)
 
 /-! ### C01/C02: `FinX.finalize` -/
 
-/-- `FinX.finalize` (no bucket) on the common domain is the closed form. -/
-theorem fin_eq_ref (env : PrecEnv) (enum : Balance → Balance) (henum : ∀ b, (enum b).Perm b)
+/-- `FinX.finalizeF` (no bucket) on the common domain is the closed form. -/
+theorem fin_eq_ref (env : PrecEnv) (enum : Balance → Balance) (henum : ∀ b, (enum b).Perm b) (date : String)
     (ps : List Posting) (hk : noKeepAmt ps = true) (hvn : noVirtNull ps = true)
     (hco : costOtherComm ps = true) (hca : costHasAmount ps = true)
+    (hla : noLotAmt ps = true) (hlc : noLotCost ps = true)
     (hg : exchangeGuard env ps = true) :
-    verdictFin (FinX.finalizeF env none enum (ps.map (fp env))) = ref env ps := by
+    verdictFin (FinX.finalizeF env none enum date (ps.map (fp env))) = ref env ps := by
   match hn : nullPosts ps with
   | [] =>
     cases hi : impliedCase env ps with
-    | false => exact fin_noNull_plain env enum henum ps hn hk hvn hco hca hi
+    | false => exact fin_noNull_plain env enum henum date ps hn hk hvn hco hca hla hi
     | true =>
       unfold exchangeGuard at hg
       rw [hi] at hg
-      exact fin_noNull_implied env enum henum ps hn hk hvn hi (by simpa using hg)
-  | [n] => exact fin_oneNull env enum henum ps n hn hk hvn hco
-  | a :: b :: r => exact fin_twoNulls env enum ps a b r hn
+      exact fin_noNull_implied env enum henum date ps hn hk hvn hla hi (by simpa using hg)
+  | [n] => exact fin_oneNull env enum henum date ps n hn hk hvn hco hla hlc
+  | a :: b :: r => exact fin_twoNulls env enum date ps a b r hn
+
+/-- … and so is `FinX.finalize` of the plain transaction (display precisions keyed
+    by base symbol: `liftEnv`). -/
+theorem finalize_eq_ref (env : PrecEnv) (enum : Balance → Balance) (henum : ∀ b, (enum b).Perm b)
+    (x : Xact) (hk : noKeepAmt x.posts = true) (hvn : noVirtNull x.posts = true)
+    (hco : costOtherComm x.posts = true) (hca : costHasAmount x.posts = true)
+    (hla : noLotAmt x.posts = true) (hlc : noLotCost x.posts = true)
+    (hg : exchangeGuard (FinX.liftEnv env) x.posts = true) :
+    verdictFin (FinX.finalize env none enum (FinX.LXact.ofXact x)) = ref (FinX.liftEnv env) x.posts := by
+  unfold FinX.finalize
+  rw [ofXact_posts]
+  exact fin_eq_ref (FinX.liftEnv env) enum henum _ x.posts hk hvn hco hca hla hlc hg
+
+/-! ### the display precision of unannotated commodities is not touched by `liftEnv` -/
+
+theorem isZero_congr (E E' : PrecEnv) (a : Amount) (h : E a.comm = E' a.comm) : a.isZero E = a.isZero E' := by
+  unfold Amount.isZero
+  rw [h]
+
+theorem isZero_lift (env : PrecEnv) (a : Amount) (h : plain a.comm = true) :
+    a.isZero (FinX.liftEnv env) = a.isZero env :=
+  isZero_congr _ _ a (liftEnv_plain env a.comm h)
+
+theorem all_isZero_lift (env : PrecEnv) (b : Balance) (h : ∀ x ∈ b, plain x.comm = true) :
+    b.all (Amount.isZero (FinX.liftEnv env)) = b.all (Amount.isZero env) := by
+  induction b with
+  | nil => rfl
+  | cons x xs ih =>
+    simp only [List.all_cons]
+    rw [isZero_lift env x (h x List.mem_cons_self), ih (fun y hy => h y (List.mem_cons_of_mem _ hy))]
+
+theorem valueIsZero_lift (env : PrecEnv) (v : Value) (h : entriesP (fun c => plain c = true) v) :
+    OF.valueIsZero (FinX.liftEnv env) v = OF.valueIsZero env v := by
+  cases v with
+  | amt a => exact isZero_lift env a h
+  | bal b => exact all_isZero_lift env b h
+  | void => rfl
+  | int _ => rfl
+  | bool _ => rfl
+
+theorem acceptNoNull_lift (env : PrecEnv) (ps : List Posting) (v : Value)
+    (h : entriesP (fun c => plain c = true) v) :
+    OF.acceptNoNull (FinX.liftEnv env) ps v = OF.acceptNoNull env ps v := by
+  unfold OF.acceptNoNull
+  cases v with
+  | bal b =>
+    match b, h with
+    | [], _ => rfl
+    | [_], h => simp only; exact valueIsZero_lift env _ h
+    | [x, y], h =>
+      have hx := isZero_lift env x (h x List.mem_cons_self)
+      have hy := isZero_lift env y (h y (List.mem_cons_of_mem _ List.mem_cons_self))
+      have hv := valueIsZero_lift env (.bal [x, y]) h
+      simp only [hx, hy, hv]
+    | _ :: _ :: _ :: _, h => simp only; exact valueIsZero_lift env _ h
+  | amt a => exact valueIsZero_lift env _ h
+  | void => rfl
+  | int _ => rfl
+  | bool _ => rfl
+
+theorem ref_lift (env : PrecEnv) (ps : List Posting) (hla : noLotAmt ps = true) (hlc : noLotCost ps = true) :
+    ref (FinX.liftEnv env) ps = ref env ps := by
+  unfold ref
+  rw [acceptNoNull_lift env ps _ (xbalance_plain ps hla hlc)]
+
+theorem impliedCase_lift (env : PrecEnv) (ps : List Posting) (hla : noLotAmt ps = true)
+    (hlc : noLotCost ps = true) : impliedCase (FinX.liftEnv env) ps = impliedCase env ps := by
+  unfold impliedCase
+  have h := xbalance_plain ps hla hlc
+  cases hB : xbalance ps with
+  | bal b =>
+    rw [hB] at h
+    match b, h with
+    | [], _ => rfl
+    | [_], _ => rfl
+    | [x, y], h =>
+      simp only [isZero_lift env x (h x List.mem_cons_self),
+        isZero_lift env y (h y (List.mem_cons_of_mem _ List.mem_cons_self))]
+    | _ :: _ :: _ :: _, _ => rfl
+  | amt _ => rfl
+  | void => rfl
+  | int _ => rfl
+  | bool _ => rfl
+
+theorem exactAmts_lift (env : PrecEnv) (ps : List Posting) (hla : noLotAmt ps = true) :
+    exactAmts (FinX.liftEnv env) ps = exactAmts env ps := by
+  have hm := noLotAmt_mem ps hla
+  unfold exactAmts
+  clear hla
+  induction ps with
+  | nil => rfl
+  | cons p ps ih =>
+    simp only [List.all_cons]
+    rw [ih (fun q hq => hm q (List.mem_cons_of_mem _ hq))]
+    congr 1
+    cases ha : p.amount with
+    | none => rfl
+    | some a =>
+      simp only
+      unfold exactB
+      rw [liftEnv_plain env a.comm (hm p List.mem_cons_self a ha)]
+
+theorem exchangeGuard_lift (env : PrecEnv) (ps : List Posting) (hla : noLotAmt ps = true)
+    (hlc : noLotCost ps = true) : exchangeGuard (FinX.liftEnv env) ps = exchangeGuard env ps := by
+  unfold exchangeGuard
+  rw [impliedCase_lift env ps hla hlc, exactAmts_lift env ps hla]
+
+/-- `FinX.finalize` of a plain transaction is the closed form under the SAME
+    precision environment the other models are given. -/
+theorem finalize_eq_ref' (env : PrecEnv) (enum : Balance → Balance) (henum : ∀ b, (enum b).Perm b)
+    (x : Xact) (hk : noKeepAmt x.posts = true) (hvn : noVirtNull x.posts = true)
+    (hco : costOtherComm x.posts = true) (hca : costHasAmount x.posts = true)
+    (hla : noLotAmt x.posts = true) (hlc : noLotCost x.posts = true)
+    (hg : exchangeGuard env x.posts = true) :
+    verdictFin (FinX.finalize env none enum (FinX.LXact.ofXact x)) = ref env x.posts := by
+  rw [finalize_eq_ref env enum henum x hk hvn hco hca hla hlc
+    (by rw [exchangeGuard_lift env x.posts hla hlc]; exact hg), ref_lift env x.posts hla hlc]
 
 /-! ### C08: `OF.finalize` -/
 
@@ -257,79 +375,17 @@ theorem rows_auto_fill (env : PrecEnv) (xs : ItemState) (a : Amount) (more : Lis
     | some b =>
       simp only [hamt, ha, rowsOf, hsrc, rowOfAuto_mk]
 
-/-- every entry of the residual fold satisfies a property of the commodity that
-    all folded amounts satisfy -/
-def entriesP (P : Comm → Prop) : Value → Prop
-  | .amt a => P a.comm
-  | .bal b => ∀ x ∈ b, P x.comm
-  | _ => True
-
-theorem entriesP_addGo (P : Comm → Prop) (b : Balance) (a : Amount) (hb : ∀ x ∈ b, P x.comm) (ha : P a.comm) :
-    ∀ x ∈ Balance.addGo b a, P x.comm := by
-  induction b with
-  | nil => intro x hx; simp only [Balance.addGo, List.mem_cons, List.not_mem_nil, or_false] at hx; rw [hx]; exact ha
-  | cons y ys ih =>
-    intro x hx
-    unfold Balance.addGo at hx
-    split at hx
-    · rcases List.mem_cons.1 hx with rfl | hx'
-      · exact hb y List.mem_cons_self
-      · exact hb x (List.mem_cons_of_mem _ hx')
-    · rcases List.mem_cons.1 hx with rfl | hx'
-      · exact hb _ List.mem_cons_self
-      · exact ih (fun z hz => hb z (List.mem_cons_of_mem _ hz)) x hx'
-
-theorem entriesP_addAmt (P : Comm → Prop) (b : Balance) (a : Amount) (hb : ∀ x ∈ b, P x.comm) (ha : P a.comm) :
-    ∀ x ∈ Balance.addAmt b a, P x.comm := by
-  unfold Balance.addAmt
-  split
-  · exact hb
-  · exact entriesP_addGo P b a hb ha
-
-theorem entriesP_vadd (P : Comm → Prop) (v : Value) (a : Amount) (hvab : VAB v) (hv : entriesP P v)
-    (ha : P a.comm) : entriesP P (vadd v a) := by
-  cases v with
-  | void => exact ha
-  | amt x =>
-    simp only [vadd]
-    split
-    · exact hv
-    · apply entriesP_addAmt P _ a _ ha
-      intro y hy
-      unfold Balance.ofAmt at hy
-      split at hy
-      · cases hy
-      · simp only [List.mem_cons, List.not_mem_nil, or_false] at hy; rw [hy]; exact hv
-  | bal b => exact entriesP_addAmt P b a hv ha
-  | int n => cases hvab
-  | bool _ => cases hvab
-
-theorem entriesP_foldl (P : Comm → Prop) (l : List Amount) (hl : ∀ a ∈ l, P a.comm) :
-    ∀ v, VAB v → entriesP P v → entriesP P (l.foldl vadd v) := by
-  induction l with
-  | nil => intro v _ h; exact h
-  | cons a l ih =>
-    intro v hvab hv
-    exact ih (fun x hx => hl x (List.mem_cons_of_mem _ hx)) _ (VAB_vadd v a hvab)
-      (entriesP_vadd P v a hvab hv (hl a List.mem_cons_self))
-
-theorem xbalance_noLot (ps : List Posting) (hc : noCost ps = true) (hl : noLotAmt ps = true) :
-    entriesP (fun c => AutoXact.hasLot c = false) (xbalance ps) := by
-  unfold xbalance
-  refine entriesP_foldl _ _ ?_ .void trivial trivial
-  intro a ha
-  obtain ⟨p, hp, hpa⟩ := List.mem_filterMap.1 ha
+theorem noLotCost_of_noCost (ps : List Posting) (hc : noCost ps = true) : noLotCost ps = true := by
   unfold noCost at hc
-  have hpc := List.all_eq_true.1 hc p hp
-  rw [bamt_noCost p (by simpa using hpc)] at hpa
-  unfold noLotAmt at hl
-  have := List.all_eq_true.1 hl p hp
-  split at hpa
-  · rw [hpa] at this
-    simpa using this
-  · cases hpa
+  unfold noLotCost
+  rw [List.all_eq_true] at hc ⊢
+  intro p hp
+  have := hc p hp
+  cases h : p.cost with
+  | none => rfl
+  | some _ => rw [h] at this; cases this
 
-theorem fillAmounts_auto (v : Value) (hv : VAB v) (hl : entriesP (fun c => AutoXact.hasLot c = false) v) :
+theorem fillAmounts_auto (v : Value) (hv : VAB v) (hl : entriesP (fun c => plain c = true) v) :
     (match AutoXact.fillAmounts v with
      | some l => l
      | none => []) = inferred v ∧ (AutoXact.fillAmounts v = none → inferred v = []) := by
@@ -339,7 +395,7 @@ theorem fillAmounts_auto (v : Value) (hv : VAB v) (hl : entriesP (fun c => AutoX
   | bal b =>
     refine ⟨?_, fun h => nomatch h⟩
     simp only [AutoXact.fillAmounts, inferred]
-    rw [sortByComm_auto_eq_fin b hl, sortedAmounts_of_eq_fin]
+    rw [sortByComm_auto_eq_of b hl]
   | int _ => cases hv
   | bool _ => cases hv
 
@@ -420,7 +476,7 @@ theorem auto_eq_ref (env : PrecEnv) (x : Xact) (hca : noCostAssert x.posts = tru
     have hsrc : (AutoXact.toPPost env n).src = n := rfl
     simp only [List.map_cons, List.map_nil, hsrc, hnm, not_true_eq_false, if_false, hbal, hann]
     obtain ⟨hfa, hfn⟩ := fillAmounts_auto (xbalance x.posts) (VAB_xbalance x.posts)
-      (xbalance_noLot x.posts hnc hlot)
+      (xbalance_plain x.posts hlot (noLotCost_of_noCost x.posts hnc))
     have hnotall : x.posts.all (fun p => p.amount.isNone) = false := by
       unfold someAmount at hsa
       have hne : x.posts ≠ [] := by
@@ -645,7 +701,7 @@ theorem balancingAmounts_eq (v : Value) (hv : VAB v) : Assert.balancingAmounts v
     | [a] => rfl
     | a :: c :: r =>
       simp only [Assert.balancingAmounts, inferred]
-      rw [sortByComm_assert_eq_fin, sortedAmounts_of_eq_fin]
+      rw [assert_sort_generic]
   | int _ => cases hv
   | bool _ => cases hv
 
